@@ -72,6 +72,13 @@ Definition s_idx (l : list aug) : list nat := flat_map (fun a => match a with SN
 (* 1 + the largest index in use (0 when none) *)
 Definition next_idx (l : list nat) : nat := fold_right (fun i m => Nat.max (S i) m) 0 l.
 
+(* the code's probe: start at [start], advance while the index is in use (fuel = number of indices in use suffices) *)
+Fixpoint first_free (fuel start : nat) (l : list nat) : nat :=
+  match fuel with
+  | 0 => start
+  | S f => if memb start l then first_free f (S start) l else start
+  end.
+
 Definition ae_eqb (e f : aug * nat) : bool := aug_eqb (fst e) (fst f) && Nat.eqb (snd e) (snd f).
 Definition aememb (e : aug * nat) (l : list (aug * nat)) : bool := existsb (ae_eqb e) l.
 Definition addae (e : aug * nat) (l : list (aug * nat)) : list (aug * nat) := if aememb e l then l else l ++ [e].
@@ -104,7 +111,9 @@ Record gstate := {
   idom : list nat;                 (* per-instance `domains` *)
   gF : list (nat * list nat);      (* abstract: F index -> ordinary targets it was created with *)
   gFa : list (nat * list aug);     (* abstract: F index -> augmented targets it was created with *)
-  gS : list (nat * (nat * nat))    (* abstract: S index -> domain pair it was created with *)
+  gS : list (nat * (nat * nat));   (* abstract: S index -> domain pair it was created with *)
+  occ : list aug                   (* names of generated shape taken by ORDINARY nodes whose label is equal to such a name
+                                      (('F', 0.0) == ('F', 0), ('F', True) == ('F', 1), ...): a new augmented node must avoid them *)
 }.
 
 Record world := { objs : list gstate; heap : list cell; cdom : list nat }.
@@ -124,7 +133,9 @@ Inductive lop :=                     (* operations on one object *)
 | LRemove (a : aug)                  (* remove_node(a) *)
 | LRemoves (l : list aug)            (* remove_nodes_from(l) *)
 | LAddNode (n : nat)                 (* add_node(n) *)
-| LAddEdge (u v : nat).              (* add_edge(u, v, "directed") *)
+| LAddEdge (u v : nat)               (* add_edge(u, v, "directed") *)
+| LAddTwin (n : nat) (a : aug) (cs : list nat).   (* add_node(x); add_edge(x, c) for c in cs -- for an ordinary label x that is EQUAL to the generated name a (e.g. ('F', 0.0)):
+                                        a no-op when a node of that name exists, else the ordinary node n now occupies the name *)
 
 Inductive op :=
 | NewGraph (c : cls) (vs : list nat) (* cls(); add_nodes_from(vs) -- the new object gets the next id *)
@@ -138,12 +149,14 @@ Definition lstate := (gstate * cell * list nat)%type.
 
 Definition set_g_aug (g : gstate) an ae aae gf gfa gs on : gstate :=
   {| gcls := gcls g; onodes := on; anodes := an; oedges := oedges g; aedges := ae; aaedges := aae; reg := reg g;
-     idom := idom g; gF := gf; gFa := gfa; gS := gs |}.
+     idom := idom g; gF := gf; gFa := gfa; gS := gs; occ := occ g |}.
 
 Definition new_f (k : cfg) (g : gstate) (c : cell) : nat :=
-  if len_names k then length (fr c) else next_idx (f_idx (anodes g)).
+  if len_names k then length (fr c)
+  else let l := f_idx (anodes g ++ occ g) in first_free (length l) (length (fr c)) l.
 Definition new_s (k : cfg) (g : gstate) (c : cell) : nat :=
-  if len_names k then length (sr c) else next_idx (s_idx (anodes g)).
+  if len_names k then length (sr c)
+  else let l := s_idx (anodes g ++ occ g) in first_free (length l) (length (sr c)) l.
 
 Definition add_f (k : cfg) (ts : list nat) (ats : list aug) (s : lstate) : lstate * nat :=
   let '(g, c, d) := s in
@@ -214,22 +227,28 @@ Definition lstep (k : cfg) (l : lop) (s : lstate) : lstate * nat :=
   | LRemoves l => remove_augs k l s
   | LAddNode n => let '(g, c, d) := s in
                   ((set_g_aug g (anodes g) (aedges g) (aaedges g) (gF g) (gFa g) (gS g) (addn n (onodes g)), c, d), 0)
+  | LAddTwin n a cs => let '(g, c, d) := s in
+                  if amemb a (anodes g ++ occ g) then (s, 0)
+                  else (({| gcls := gcls g; onodes := unionn (addn n (onodes g)) cs; anodes := anodes g;
+                            oedges := fold_left (fun es t => addoe (n, t) es) cs (oedges g);
+                            aedges := aedges g; aaedges := aaedges g; reg := reg g; idom := idom g;
+                            gF := gF g; gFa := gFa g; gS := gS g; occ := occ g ++ [a] |}, c, d), 0)
   | LAddEdge u v => let '(g, c, d) := s in
                   (({| gcls := gcls g; onodes := addn v (addn u (onodes g)); anodes := anodes g;
                        oedges := addoe (u, v) (oedges g); aedges := aedges g; aaedges := aaedges g; reg := reg g;
-                       idom := idom g; gF := gF g; gFa := gFa g; gS := gS g |}, c, d), 0)
+                       idom := idom g; gF := gF g; gFa := gFa g; gS := gS g; occ := occ g |}, c, d), 0)
   end.
 
 Definition set_idom (g : gstate) (d : list nat) : gstate :=
   {| gcls := gcls g; onodes := onodes g; anodes := anodes g; oedges := oedges g; aedges := aedges g;
-     aaedges := aaedges g; reg := reg g; idom := d; gF := gF g; gFa := gFa g; gS := gS g |}.
+     aaedges := aaedges g; reg := reg g; idom := d; gF := gF g; gFa := gFa g; gS := gS g; occ := occ g |}.
 Definition set_reg (g : gstate) (r : nat) : gstate :=
   {| gcls := gcls g; onodes := onodes g; anodes := anodes g; oedges := oedges g; aedges := aedges g;
-     aaedges := aaedges g; reg := r; idom := idom g; gF := gF g; gFa := gFa g; gS := gS g |}.
+     aaedges := aaedges g; reg := r; idom := idom g; gF := gF g; gFa := gFa g; gS := gS g; occ := occ g |}.
 
 Definition new_gstate (c : cls) (vs : list nat) (r : nat) : gstate :=
   {| gcls := c; onodes := unionn [] vs; anodes := []; oedges := []; aedges := []; aaedges := []; reg := r; idom := [];
-     gF := []; gFa := []; gS := [] |}.
+     gF := []; gFa := []; gS := []; occ := [] |}.
 
 Definition dom_of (k : cfg) (w : world) (g : gstate) : list nat := if class_domains k then cdom w else idom g.
 
@@ -262,13 +281,13 @@ Definition run (k : cfg) (ops : list op) : world := fold_left (fun w o => fst (s
 (* ---------------------------------------------------------------- observation of one object *)
 Record obs := {
   ob_cls : cls; ob_onodes : list nat; ob_anodes : list aug; ob_oedges : list (nat * nat);
-  ob_aedges : list (aug * nat); ob_aaedges : list (aug * aug); ob_cell : cell; ob_dom : list nat }.
+  ob_occ : list aug; ob_aedges : list (aug * nat); ob_aaedges : list (aug * aug); ob_cell : cell; ob_dom : list nat }.
 
 Definition observe (k : cfg) (w : world) (o : nat) : option obs :=
   match nth_error (objs w) o with
   | None => None
   | Some g => Some {| ob_cls := gcls g; ob_onodes := onodes g; ob_anodes := anodes g; ob_oedges := oedges g;
-                      ob_aedges := aedges g; ob_aaedges := aaedges g; ob_cell := nth (reg g) (heap w) empty_cell; ob_dom := dom_of k w g |}
+                      ob_occ := occ g; ob_aedges := aedges g; ob_aaedges := aaedges g; ob_cell := nth (reg g) (heap w) empty_cell; ob_dom := dom_of k w g |}
   end.
 
 (* ---------------------------------------------------------------- wire format (name-free rendering)
@@ -283,6 +302,8 @@ Definition observe (k : cfg) (w : world) (o : nat) : option obs :=
          | L [I 6; I o; L [L [kind; pos]…]] remove_nodes_from
          | L [I 7; I o; I n]               add_node
          | L [I 8; I o; I u; I v]          add_edge directed
+         | L [I 10; I o; I n; I kind; I i; nats cs]  add_node(x), add_edge(x, c) for an ordinary label x equal to the generated
+                                           name (kind, i) -- ordinary node n; skipped altogether when a node of that name exists
    Augmented nodes are referred to by POSITION in the registry (insertion order), and rendered without
    their names, so that the comparison does not depend on the naming policy (only freshness matters).
    output = L [ per op: L [I status; L [ per object: rendering ]] ] *)
@@ -316,6 +337,9 @@ Definition decode_op (w : world) (s : sx) : option op :=
   | 6 => Some (On o (LRemoves (flat_map (fun p => opt_list (resolve_aug w o (fst p) (snd p))) (sx_pairs (sx_nth s 2)))))
   | 7 => Some (On o (LAddNode (sx_nat (sx_nth s 2))))
   | 8 => Some (On o (LAddEdge (sx_nat (sx_nth s 2)) (sx_nat (sx_nth s 3))))
+  | 10 => Some (On o (LAddTwin (sx_nat (sx_nth s 2))
+                        (match sx_nat (sx_nth s 3) with 0 => FN (sx_nat (sx_nth s 4)) | _ => SN (sx_nat (sx_nth s 4)) end)
+                        (sx_nats (sx_nth s 5))))
   | _ => None
   end.
 
